@@ -1,13 +1,271 @@
 import Girc.Proofs.InvBase
+import Girc.Proofs.InvJoinCore
 namespace Girc.Proofs.InvJoin
-open Girc Girc.Model Girc.Spec
+open Girc Girc.Model Girc.Spec Girc.Proofs.InvBase
+
+/-! ### Lookup-congruence of `InvL` in the user map -/
+
+/-- `InvL` only looks at the user map through `get?` and the duplicate-freeness of its keys. -/
+theorem invL_congr_users {cs : AMap Channel} {us us' : AMap User} (h : InvL cs us)
+    (hnd : (AMap.keys us').Nodup) (hg : ∀ x, AMap.get? us' x = AMap.get? us x) : InvL cs us' := by
+  refine ⟨h.chanKeys, hnd, h.chanKey, ?_, ?_, ?_, h.chanSorted, ?_, ?_⟩
+  · intro n u hn; rw [hg] at hn; exact h.userKey n u hn
+  · intro k ch hk n hn
+    obtain ⟨u, hu, hku⟩ := h.chanToUser k ch hk n hn
+    exact ⟨u, by rw [hg]; exact hu, hku⟩
+  · intro n u hn; rw [hg] at hn; exact h.userToChan n u hn
+  · intro n u hn; rw [hg] at hn; exact h.userSorted n u hn
+  · intro n u hn; rw [hg] at hn; exact h.userHasChan n u hn
+
+/-! ### "Ensure the channel / the user exists" -/
+
+def ensureChannel (st : St) (name : Bytes) : St :=
+  if (st.lookupChannel name).isNone then (st.createChannel name).1 else st
+
+def ensureUser (st : St) (src : Source) : St :=
+  if (st.lookupUser src.name).isNone then (st.createUser src).1 else st
+
+theorem ensureChannel_of_none {st : St} {name : Bytes} (hl : st.lookupChannel name = none) :
+    ensureChannel st name = (st.createChannel name).1 := by
+  unfold ensureChannel; rw [hl]; rfl
+
+theorem ensureChannel_of_some {st : St} {name : Bytes} {ch : Channel} (hl : st.lookupChannel name = some ch) :
+    ensureChannel st name = st := by
+  unfold ensureChannel; rw [hl]; rfl
+
+theorem ensureUser_of_none {st : St} {src : Source} (hl : st.lookupUser src.name = none) :
+    ensureUser st src = (st.createUser src).1 := by
+  unfold ensureUser; rw [hl]; rfl
+
+theorem ensureUser_of_some {st : St} {src : Source} {u : User} (hl : st.lookupUser src.name = some u) :
+    ensureUser st src = st := by
+  unfold ensureUser; rw [hl]; rfl
+
+theorem ensureChannel_spec (st : St) (name : Bytes) (h : InvL st.channels st.users) :
+    InvL (ensureChannel st name).channels (ensureChannel st name).users ∧
+      ∃ ch, (ensureChannel st name).lookupChannel name = some ch := by
+  cases hl : st.lookupChannel name with
+  | some ch => rw [ensureChannel_of_some hl]; exact ⟨h, ch, hl⟩
+  | none =>
+    obtain ⟨c, hcn, hcu, hcs⟩ := createChannel_channels_of_none st name hl
+    rw [ensureChannel_of_none hl, createChannel_users, hcs]
+    refine ⟨invL_newChannel h hl (by rw [hcn]) hcu, c, ?_⟩
+    rw [lookupChannel_eq, hcs]; exact get?_set_self _ _ _
+
+/-- The state after `ensureUser`: channels untouched; the user found afterwards is either the
+    stored one (users untouched) or a fresh one with no channels, stored under `fold src.name`. -/
+theorem ensureUser_spec (st : St) (src : Source) (h : InvL st.channels st.users) :
+    (ensureUser st src).channels = st.channels ∧
+    ∃ u, (ensureUser st src).lookupUser src.name = some u ∧ fold src.name = fold u.nick ∧
+      ((AMap.get? st.users (fold src.name) = some u ∧ (ensureUser st src).users = st.users) ∨
+       (AMap.get? st.users (fold src.name) = none ∧ u.chans = [] ∧
+          (ensureUser st src).users = AMap.set st.users (fold src.name) u)) := by
+  cases hl : st.lookupUser src.name with
+  | some u =>
+    rw [ensureUser_of_some hl]
+    refine ⟨rfl, u, hl, h.userKey _ u hl, Or.inl ⟨hl, rfl⟩⟩
+  | none =>
+    obtain ⟨u, hun, huc, hus⟩ := createUser_users_of_none st src hl
+    rw [ensureUser_of_none hl]
+    refine ⟨createUser_channels st src, u, ?_, by rw [hun], Or.inr ⟨hl, huc, hus⟩⟩
+    rw [lookupUser_eq, hus]; exact get?_set_self _ _ _
+
+/-- `createUser` (unconditional, as in NAMES) behaves like `ensureUser`. -/
+theorem createUser_eq_ensureUser (st : St) (src : Source) : (st.createUser src).1 = ensureUser st src := by
+  cases hl : st.lookupUser src.name with
+  | some u => rw [createUser_of_some st src hl, ensureUser_of_some hl]
+  | none => rw [ensureUser_of_none hl]
+
+/-- The joint update of both maps after `ensureUser`, for both handlers. -/
+theorem invL_join_ensured {st : St} (h : InvL st.channels st.users) (src : Source)
+    {k a b : Bytes} {ch : Channel} {u u' : User}
+    (hc : AMap.get? st.channels k = some ch)
+    (hu : (ensureUser st src).lookupUser src.name = some u)
+    (ha : fold a = fold src.name) (hb : fold b = k)
+    (hnick : u'.nick = (u.addChannel b).nick) (hchans : u'.chans = (u.addChannel b).chans) :
+    InvL (AMap.set (ensureUser st src).channels k (ch.addUser a))
+         (AMap.set (ensureUser st src).users (fold src.name) u') := by
+  obtain ⟨hcs, w, hw, hwn, hcase⟩ := ensureUser_spec st src h
+  rw [hu] at hw; cases hw
+  rw [hcs]
+  rcases hcase with ⟨hget, hus⟩ | ⟨hget, hnil, hus⟩
+  · rw [hus]
+    exact invL_join_add h hc (Or.inl hget) hwn ha hb hnick hchans
+  · rw [hus]
+    have key := invL_join_add (u' := u') h hc (Or.inr ⟨hget, hnil⟩) hwn ha hb hnick hchans
+    refine invL_congr_users key ?_ (fun x => get?_set_set _ _ _ _ x)
+    exact keys_set_nodup (keys_set_nodup h.userKeys _ _) _ _
+
+/-! ### `handleJOIN` -/
+
+def joinAttrs (params : List Bytes) (user : User) : User :=
+  match params with
+  | _ :: acct :: rest =>
+    let user := if acct ≠ sStar then { user with account := acct } else user
+    (match rest with
+     | nm :: _ => { user with name := nm }
+     | [] => user)
+  | _ => user
+
+theorem joinAttrs_nick (params : List Bytes) (u : User) : (joinAttrs params u).nick = u.nick := by
+  unfold joinAttrs
+  split
+  · split <;> (dsimp only; split <;> rfl)
+  · rfl
+
+theorem joinAttrs_chans (params : List Bytes) (u : User) : (joinAttrs params u).chans = u.chans := by
+  unfold joinAttrs
+  split
+  · split <;> (dsimp only; split <;> rfl)
+  · rfl
+
+def joinC (cfg : Cfg) (params : List Bytes) (src : Source) (channelName : Bytes)
+    (channel : Channel) (user : User) (st : St) : M (St × List Out) :=
+  let channel := channel.addUser user.nick
+  let user := user.addChannel channel.name
+  let user := joinAttrs params user
+  let st := setChannel st (fold channelName) channel
+  let st := setUser st (fold src.name) user
+  if fold src.name = getID cfg st then
+    .ok ({ st with ident := src.ident, host := src.host },
+         [.send (whoEvent channelName), .send { command := cMODE, params := [channelName] }])
+  else .ok (st, [.send (whoEvent src.name)])
+
+def joinB (cfg : Cfg) (params : List Bytes) (src : Source) (channelName : Bytes)
+    (channel : Channel) (st : St) : M (St × List Out) := do
+  let user ← deref (st.lookupUser src.name)
+  joinC cfg params src channelName channel user st
+
+def joinA (cfg : Cfg) (params : List Bytes) (src : Source) (channelName : Bytes) (st : St) :
+    M (St × List Out) := do
+  let channel ← deref (st.lookupChannel channelName)
+  joinB cfg params src channelName channel (ensureUser st src)
+
+theorem joinA_inv (cfg : Cfg) (params : List Bytes) (src : Source) (channelName : Bytes) (st : St)
+    (h : InvL st.channels st.users) {ch : Channel} (hch : st.lookupChannel channelName = some ch) :
+    ∃ st' outs, joinA cfg params src channelName st = .ok (st', outs) ∧ Inv st' := by
+  obtain ⟨_, u, hu, hun, _⟩ := ensureUser_spec st src h
+  have hk : fold channelName = fold ch.name := h.chanKey _ ch hch
+  have hfinal : InvL
+      (AMap.set (ensureUser st src).channels (fold channelName) (ch.addUser u.nick))
+      (AMap.set (ensureUser st src).users (fold src.name)
+        (joinAttrs params (u.addChannel (ch.addUser u.nick).name))) := by
+    refine invL_join_ensured h src hch hu hun.symm (b := (ch.addUser u.nick).name) ?_ ?_ ?_
+    · rw [addUser_name]; exact hk.symm
+    · rw [joinAttrs_nick]
+    · rw [joinAttrs_chans]
+  unfold joinA
+  rw [hch]
+  show ∃ st' outs, joinB cfg params src channelName ch (ensureUser st src) = .ok (st', outs) ∧ Inv st'
+  unfold joinB
+  rw [hu]
+  show ∃ st' outs, joinC cfg params src channelName ch u (ensureUser st src) = .ok (st', outs) ∧ Inv st'
+  unfold joinC
+  dsimp only
+  split
+  · exact ⟨_, _, rfl, inv_of_invL (st := { setUser (setChannel (ensureUser st src) (fold channelName) (ch.addUser u.nick))
+        (fold src.name) (joinAttrs params (u.addChannel (ch.addUser u.nick).name)) with
+        ident := src.ident, host := src.host }) hfinal⟩
+  · exact ⟨_, _, rfl, inv_of_invL (st := setUser (setChannel (ensureUser st src) (fold channelName) (ch.addUser u.nick))
+        (fold src.name) (joinAttrs params (u.addChannel (ch.addUser u.nick).name))) hfinal⟩
 
 theorem handleJOIN_inv (cfg : Cfg) (st : St) (e : Event) (h : Inv st) :
     ∃ st' outs, handleJOIN cfg st e = .ok (st', outs) ∧ Inv st' := by
-  sorry
+  unfold handleJOIN
+  split
+  · rename_i src channelName tail hsrc hparams
+    show ∃ st' outs, joinA cfg e.params src channelName (ensureChannel st channelName) = .ok (st', outs) ∧ Inv st'
+    obtain ⟨h1, ch, hch⟩ := ensureChannel_spec st channelName h.toInvL
+    exact joinA_inv cfg e.params src channelName _ h1 hch
+  · exact ⟨st, [], rfl, h⟩
+
+/-! ### `handleNAMES` -/
+
+/-- The part of `namesEntry` after the source has been determined. -/
+def namesBody (channelKey : Bytes) (st : St) (modes : Bytes) (src : Source) : M St :=
+  let st := (st.createUser src).1
+  match st.lookupUser src.name with
+  | none => .ok st
+  | some user => do
+    let channel ← deref (AMap.get? st.channels channelKey)
+    let user := user.addChannel channel.name
+    let channel := channel.addUser (fold src.name)
+    let user := { user with perms := AMap.set user.perms (fold channel.name) (permsFromPrefix modes) }
+    .ok (setChannel (setUser st (fold src.name) user) channelKey channel)
+
+/-- Every entry either leaves the state alone or runs `namesBody` for some source. -/
+theorem namesEntry_cases (channelKey : Bytes) (st : St) (part : Bytes) :
+    namesEntry channelKey st part = .ok st ∨
+      ∃ modes src, namesEntry channelKey st part = namesBody channelKey st modes src := by
+  unfold namesEntry
+  split
+  rename_i modes nick ok _
+  split
+  · exact Or.inl rfl
+  · dsimp only
+    split
+    · exact Or.inr ⟨modes, parseSource nick, rfl⟩
+    · split
+      · exact Or.inl rfl
+      · exact Or.inr ⟨modes, ⟨nick, [], []⟩, rfl⟩
+
+/-- The loop invariant of `handleNAMES`: the invariant, and the channel is still there. -/
+def NamesInv (channelKey : Bytes) (st : St) : Prop :=
+  Inv st ∧ ∃ ch, AMap.get? st.channels channelKey = some ch
+
+theorem namesBody_inv (channelKey : Bytes) (st : St) (modes : Bytes) (src : Source)
+    (h : NamesInv channelKey st) :
+    ∃ st', namesBody channelKey st modes src = .ok st' ∧ NamesInv channelKey st' := by
+  obtain ⟨hinv, ch, hch⟩ := h
+  have hL := hinv.toInvL
+  obtain ⟨hcs, u, hu, _, _⟩ := ensureUser_spec st src hL
+  have hk : channelKey = fold ch.name := hL.chanKey _ ch hch
+  have hfinal := invL_join_ensured (u' := { u.addChannel ch.name with
+      perms := AMap.set (u.addChannel ch.name).perms (fold (ch.addUser (fold src.name)).name) (permsFromPrefix modes) })
+    hL src hch hu (fold_idem src.name) hk.symm rfl rfl
+  unfold namesBody
+  dsimp only
+  rw [createUser_eq_ensureUser, hu]
+  dsimp only
+  rw [hcs, hch]
+  refine ⟨_, rfl, ?_, ch.addUser (fold src.name), ?_⟩
+  · exact inv_of_invL (st := setChannel (setUser (ensureUser st src) (fold src.name) _) channelKey _) hfinal
+  · show AMap.get? (AMap.set (ensureUser st src).channels channelKey _) channelKey = _
+    exact get?_set_self _ _ _
+
+theorem namesEntry_inv (channelKey : Bytes) (st : St) (part : Bytes) (h : NamesInv channelKey st) :
+    ∃ st', namesEntry channelKey st part = .ok st' ∧ NamesInv channelKey st' := by
+  rcases namesEntry_cases channelKey st part with he | ⟨modes, src, he⟩
+  · exact ⟨st, he, h⟩
+  · rw [he]; exact namesBody_inv channelKey st modes src h
+
+theorem names_foldlM_inv (channelKey : Bytes) (parts : List Bytes) (st : St) (h : NamesInv channelKey st) :
+    ∃ st', parts.foldlM (namesEntry channelKey) st = .ok st' ∧ NamesInv channelKey st' := by
+  induction parts generalizing st with
+  | nil => exact ⟨st, rfl, h⟩
+  | cons p ps ih =>
+    obtain ⟨st1, he, h1⟩ := namesEntry_inv channelKey st p h
+    rw [List.foldlM_cons, he]
+    exact ih st1 h1
 
 theorem handleNAMES_inv (st : St) (e : Event) (h : Inv st) :
     ∃ st', handleNAMES st e = .ok st' ∧ Inv st' := by
-  sorry
+  unfold handleNAMES
+  split
+  · exact ⟨st, rfl, h⟩
+  · rename_i hlen
+    have hlt : 2 < e.params.length := by omega
+    have hidx : idx e.params 2 = .ok e.params[2] := by
+      unfold idx
+      rw [List.getElem?_eq_getElem hlt]
+    rw [hidx]
+    show ∃ st', (match st.lookupChannel e.params[2] with
+      | none => Except.ok st
+      | some _ => List.foldlM (namesEntry (fold e.params[2])) st (splitOnByte SP e.last)) = .ok st' ∧ Inv st'
+    cases hl : st.lookupChannel e.params[2] with
+    | none => exact ⟨st, rfl, h⟩
+    | some ch =>
+      obtain ⟨st', he, hi, _⟩ := names_foldlM_inv (fold e.params[2]) (splitOnByte SP e.last) st ⟨h, ch, hl⟩
+      exact ⟨st', he, hi⟩
 
 end Girc.Proofs.InvJoin
